@@ -74,6 +74,9 @@ struct ConnLog {
     parses: Vec<String>,
     msgs: usize,
     kill: Option<tokio::sync::oneshot::Sender<()>>,
+    /// the server answered a recycle query of this connection with an error (or hung up on it):
+    /// the check failed, whatever the manager makes of the answer
+    failed_check: bool,
 }
 #[derive(Default)]
 struct Srv {
@@ -145,7 +148,11 @@ async fn serve(mut s: DuplexStream, ix: usize, srv: Arc<Mutex<Srv>>, mut kill: t
                         "ok".to_string()
                     } else {
                         g.conns[ix].queries.push(sql.clone());
-                        g.plan.pop_front().unwrap_or_else(|| "ok".into())
+                        let m = g.plan.pop_front().unwrap_or_else(|| "ok".into());
+                        if m == "error" || m == "disconnect" {
+                            g.conns[ix].failed_check = true;
+                        }
+                        m
                     }
                 };
                 let mut out = vec![];
@@ -270,6 +277,10 @@ impl World {
                 self.last_get = format!("ok{}", id);
                 if c.is_closed() {
                     self.bump("closed_handout");
+                }
+                // (connection k of the scripted server is client k: every create of this harness ends in a hand-out)
+                if self.srv.lock().unwrap().conns.get(id as usize - 1).map_or(false, |c| c.failed_check) {
+                    self.bump("failed_handout");
                 }
                 self.held.insert(id, c);
             }
@@ -417,6 +428,7 @@ pub fn run_path(cfg: &Cfg, path: &PathRec<Post>, record: bool) -> (PathResult, V
             }
             json!({"run": path.id, "i": n, "k": k, "act": act, "size": st.size, "avail": st.available, "max": cfg.max_size,
                    "last_get": w.last_get, "closed_handout": w.facts.get("closed_handout").unwrap_or(&0),
+                   "failed_handout": w.facts.get("failed_handout").unwrap_or(&0),
                    "bad_q": bad_q, "bad_prepare": w.facts.get("bad_prepare").unwrap_or(&0), "bad_size": bad_size,
                    // entries of the registry, read off its Debug output (one "(Weak)" per registered cache)
                    "reg_n": format!("{:?}", w.pool.manager().statement_caches).matches("(Weak)").count(),
@@ -731,7 +743,7 @@ pub fn run_path(cfg: &Cfg, path: &PathRec<Post>, record: bool) -> (PathResult, V
                 let st = w2.pool.status();
                 lines.push(
                     json!({"run": path.id, "i": n, "k": "stress", "act": "TakeAll", "size": st.size, "avail": st.available, "max": cfg.stress,
-                           "last_get": "-", "closed_handout": 0, "bad_q": 0, "bad_prepare": panics, "bad_size": 0, "reg_n": reg_n,
+                           "last_get": "-", "closed_handout": 0, "failed_handout": 0, "bad_q": 0, "bad_prepare": panics, "bad_size": 0, "reg_n": reg_n,
                            "nqueries": 0, "fast": true, "probe_got": -1})
                     .to_string(),
                 );
